@@ -133,6 +133,24 @@ CHECKS["C13"] = dict(
     technique="escape analysis + feasible-path search in loop SCCs + errno-source tracking + argument-flow/control-dependence checks",
     design="3/C13")
 
+
+CHECKS["C11"] = dict(
+    text="Decides structural necessary conditions on all paths: (R1) the TCP option struct's equality compares every field with == (a change of one "
+         "option during a pending connect is noticed); (R2) tcp_opts_effectuate hands every option field to a wrapper that passes a value derived "
+         "from it to setsockopt on the given descriptor, options pairwise distinct, failures reported; (R3) each tcp_set_<f> reports success only if "
+         "the value was already stored, or it stored it and (no descriptor yet or the matching wrapper succeeded); attribute tcp.<f> is registered "
+         "with the setter that stores <f> and the getter that reads <f> on the socket's own options/descriptor; (R4) accept applies the new "
+         "connection's options to the descriptor it keeps before `ready`; connect completion reaches `ready` only with options equal to the snapshot "
+         "the tracker applied or re-applied successfully; the tracker applies its snapshot before connect(); (R5) for every attribute whose row in "
+         "xcm.h says `Writable only ...` (20 attributes, parsed from the header on every run) each modification made by its setter (helpers and the "
+         "xcm.local_addr dispatch inlined) lies behind the initial-state guard and the setter has an EACCES exit; accept tests the three connect-only "
+         "attributes before accept4(); (R6) set_attrs after init and before connect/server/accept, defaults before the user's map; (R7) xcm.service "
+         "succeeds only on an equal edge of a comparison with `any` or the actual service, else EINVAL; xcm.blocking is xcm_set_blocking; (R8) scope "
+         "inheritance at init. Not decided: that the kernel honours setsockopt, the actual source address, behaviour in every life-cycle state at run time.",
+    note=TRUSTED,
+    technique="field-coverage agreement + path exploration with guard facts and inlining + argument-flow checks",
+    design="3/C11")
+
 NOT_APPLICABLE = {}
 
 
